@@ -207,6 +207,7 @@ type simLog struct {
 	// per-kind counters (atomic)
 	nFull, nPrefix, n500, n4xx, nTransport, nBody, nSTH int32
 	nOutside, livelock                                  int32
+	localFailures                                       int32 // consecutive fetch failures reported by the scanner without any request reaching the log
 	reqLog   [c17MaxEntries + 1][8]int32 // per range start, per attempt (up to 8): outcome code, for the canonical log
 }
 
@@ -230,8 +231,24 @@ func (l *simLog) respond(req *http.Request, code int, body io.ReadCloser) *http.
 		Header: http.Header{"Content-Type": []string{"application/json"}}, Body: body, Request: req, ContentLength: -1}
 }
 
+// c17LogHook listens to the scanner's own log (a seam the caller owns): a fetch that fails before any request
+// reaches the log, reported again and again, is a retry loop that can never make progress — and one that takes no
+// simulated time, so nothing else would ever end it. After a bounded number of such reports in a row the
+// reporting goroutine is parked for good and the run is classified as "Scan did not terminate".
+type c17LogHook struct{ l *simLog }
+
+func (h c17LogHook) Levels() []logrus.Level { return []logrus.Level{logrus.InfoLevel, logrus.WarnLevel, logrus.ErrorLevel} }
+func (h c17LogHook) Fire(e *logrus.Entry) error {
+	if strings.HasPrefix(e.Message, "Problem fetching from log") && atomic.AddInt32(&h.l.localFailures, 1) > 20000 {
+		atomic.StoreInt32(&h.l.livelock, 2)
+		select {}
+	}
+	return nil
+}
+
 func (l *simLog) RoundTrip(req *http.Request) (*http.Response, error) {
 	sc := l.sc
+	atomic.StoreInt32(&l.localFailures, 0)
 	if strings.HasSuffix(req.URL.Path, "/ct/v1/get-sth") {
 		atomic.AddInt32(&l.nSTH, 1)
 		body, _ := json.Marshal(map[string]any{"tree_size": sc.TreeSize, "timestamp": 1234567, "sha256_root_hash": base64.StdEncoding.EncodeToString(make([]byte, 32)),
@@ -375,7 +392,8 @@ func execC17(t *testing.T, scAny any, keepLog bool) *Outcome {
 		lc := client.NewWithRoundTripper("http://ct.sim.test", srv)
 		lg := logrus.New()
 		lg.SetOutput(io.Discard)
-		lg.SetLevel(logrus.PanicLevel)
+		lg.SetLevel(logrus.InfoLevel)
+		lg.AddHook(c17LogHook{srv})
 		opts := scanner.ScannerOptions{Matcher: c17Matcher{sc: sc, hits: &hits, bad: &bad}, PrecertOnly: sc.PrecertOnly, BatchSize: int64(sc.Batch), NumWorkers: sc.Workers,
 			ParallelFetch: sc.Fetchers, StartIndex: int64(sc.Start), Quiet: true, Name: "simlog", MaximumIndex: int64(sc.MaxIndex)}
 		if sc.NilMatcher {
@@ -443,6 +461,8 @@ func execC17(t *testing.T, scAny any, keepLog bool) *Outcome {
 	o.Steps = int(srv.nFull + srv.nPrefix + srv.n500 + srv.n4xx + srv.nTransport + srv.nBody)
 
 	switch {
+	case !returned && srv.livelock == 2:
+		o.Fail = Failf("c17.termination", "Scan did not terminate after the faults stopped", "the scanner kept retrying a fetch that fails before any request reaches the log (20000 failures in a row)")
 	case !returned && srv.livelock != 0:
 		o.Fail = Failf("c17.termination", "Scan did not terminate after the faults stopped", "the scanner kept requesting the same range without progress (%d requests outside the tree)", srv.nOutside)
 	case !returned:
